@@ -41,8 +41,6 @@ type desc struct {
 	Ops             []op   `json:"ops"`
 }
 
-const keyF3 = "closeidle-drops-unflushed-response-of-pipelined-conn"
-
 // ---- scripted connection ----------------------------------------------------------------------------------------------------
 
 type sconn struct {
@@ -243,7 +241,7 @@ func quiet() bool {
 	for time.Now().Before(deadline) {
 		if busyGoroutines() == 0 {
 			ok++
-			if ok >= 2 {
+			if ok >= 3 {
 				return true
 			}
 		} else {
@@ -291,6 +289,7 @@ type runner struct {
 	cancel      context.CancelFunc
 	sdAt        time.Time
 	stuck       bool
+	unstable    bool
 	pipelined   bool
 	heldAfterSd bool
 	topHeldAtSd bool // Shutdown was called while a connection goroutine was parked at the top of its loop
@@ -393,11 +392,32 @@ func (rn *runner) rest(since time.Time) {
 	}
 }
 
+// emit records a block: every goroutine is at rest and two successive readings of the observables agree - while Shutdown is still
+// running the second reading is taken a ticker period later, so that a further closeIdleConns pass / counter check cannot change it.
+// A case whose observables never settle is classified unstable and judged neither way.
 func (rn *runner) emit(ops []string) {
 	for _, l := range ops {
 		rn.kinds[strings.Fields(l)[0]]++
 	}
-	rn.blocks = append(rn.blocks, fmt.Sprintf("(Blk %s %s %s)", hlib.List(ops), rn.holdsCoq(), rn.obs()))
+	var o string
+	stable := false
+	for try := 0; try < 6 && !stable; try++ {
+		if !quiet() {
+			continue
+		}
+		o = rn.obs()
+		if rn.sdState.Load() == 1 {
+			time.Sleep(110 * time.Millisecond)
+		}
+		if !quiet() {
+			continue
+		}
+		stable = o == rn.obs()
+	}
+	if !stable {
+		rn.unstable = true
+	}
+	rn.blocks = append(rn.blocks, fmt.Sprintf("(Blk %s %s %s)", hlib.List(ops), rn.holdsCoq(), o))
 }
 
 func (rn *runner) pick(f func(*crec) bool, k int) *crec {
@@ -698,10 +718,10 @@ func runCase(d desc) hlib.Case {
 		}
 		r.c.clientClose()
 	}
-	key := ""
-	if rn.pipelined && rn.topHeldAtSd {
-		key = keyF3
+	if rn.unstable && !rn.stuck {
+		return hlib.Case{Coq: "CUnstable", Kind: d.Class + "-unstable", Size: len(rn.blocks)}
 	}
+	key := ""
 	kind := d.Class
 	if rn.stuck {
 		kind += "-stuck"
@@ -769,7 +789,8 @@ func corpus() []desc {
 		{Class: "pipelined", Ops: ops("servestart accept:2 finish shutdown finish")},
 		{Class: "pipelined", Ops: ops("servestart accept:1 send send finish shutdown finish finish")},
 		{Class: "pipelined", Ops: ops("servestart accept:3 finish finish finish shutdown")},
-		// FINDING closeidle-drops-unflushed-response-of-pipelined-conn: answered, response held back for the buffered request, marked idle, closed by Shutdown
+		// regression for the repaired finding closeidle-drops-unflushed-response-of-pipelined-conn (ce44e94): answered, response held back for the
+		// buffered request; the connection is not marked idle, Shutdown leaves it alone, the stop check flushes
 		{Class: "pipetop", Deadlines: true, Ops: ops("servestart accept:2 holdtop finish shutdown releasetop")},
 		{Class: "pipetop", Deadlines: true, Ops: ops("servestart accept:3 finish holdtop finish shutdown releasetop")},
 		{Class: "pipetop", Deadlines: true, Ops: ops("servestart accept:2 holdtop finish releasetop shutdown finish")},
